@@ -18,10 +18,12 @@ import (
 	"fmt"
 	"io"
 	"math/big"
+	"net"
 	"os"
 	"runtime"
 	"sort"
 	"sync"
+	"sync/atomic"
 	"time"
 
 	"github.com/tjfoc/gmsm/gmtls"
@@ -448,6 +450,90 @@ func transferSizes(w, r *gmtls.Conn, total int, seed int, sizes []int) (int, err
 	return len(got), nil
 }
 
+// a transport that, once switched on, hands the reader its bytes in small pieces (3, 400, 2, 5000, 1, ... bytes) and lets
+// every other Read call end in an expired read deadline: a temporary error after which the connection stays usable
+type dripConn struct {
+	net.Conn
+	on    int32
+	calls int
+}
+
+type dripTimeout struct{}
+
+func (dripTimeout) Error() string   { return "verif: i/o timeout" }
+func (dripTimeout) Timeout() bool   { return true }
+func (dripTimeout) Temporary() bool { return true }
+
+func (d *dripConn) Read(p []byte) (int, error) {
+	if atomic.LoadInt32(&d.on) == 0 {
+		return d.Conn.Read(p)
+	}
+	d.calls++
+	if d.calls%2 == 0 {
+		return 0, dripTimeout{}
+	}
+	if k := []int{3, 400, 2, 5000, 1, 17, 1000}[(d.calls/2)%7]; len(p) > k {
+		p = p[:k]
+	}
+	return d.Conn.Read(p)
+}
+
+// the writer sends messages of the given sizes; the reader's transport drips and times out; the reader retries after every
+// timeout and must receive exactly the bytes sent
+func dripTransfer(w, r *gmtls.Conn, d *dripConn, sizes []int) error {
+	var msg []byte
+	total := 0
+	for _, n := range sizes {
+		total += n
+	}
+	msg = make([]byte, total)
+	for i := range msg {
+		msg[i] = byte((i*61 + 11) % 251)
+	}
+	atomic.StoreInt32(&d.on, 1)
+	defer atomic.StoreInt32(&d.on, 0)
+	errc := make(chan error, 1)
+	go func() {
+		off := 0
+		for _, n := range sizes {
+			if _, e := w.Write(msg[off : off+n]); e != nil {
+				errc <- e
+				return
+			}
+			off += n
+		}
+		errc <- nil
+	}()
+	var got []byte
+	timeouts := 0
+	deadline := time.Now().Add(20 * time.Second)
+	for len(got) < total {
+		if time.Now().After(deadline) {
+			return fmt.Errorf("%d of %d bytes after 20 s", len(got), total)
+		}
+		buf := make([]byte, 3000)
+		k, e := r.Read(buf)
+		got = append(got, buf[:k]...)
+		if ne, ok := e.(net.Error); ok && ne.Timeout() {
+			timeouts++
+			continue
+		}
+		if e != nil {
+			return fmt.Errorf("read after %d of %d bytes and %d expired deadlines: %v", len(got), total, timeouts, e)
+		}
+	}
+	if e := <-errc; e != nil {
+		return fmt.Errorf("write: %v", e)
+	}
+	if timeouts == 0 {
+		return fmt.Errorf("driver: no read deadline expired")
+	}
+	if !bytes.Equal(got, msg) {
+		return fmt.Errorf("stream delivered across %d expired read deadlines differs from the stream sent", timeouts)
+	}
+	return nil
+}
+
 func tailThenClose(w, r *gmtls.Conn, n int) error {
 	msg := make([]byte, n)
 	for i := range msg {
@@ -538,10 +624,11 @@ func runC06(c *c06Case) (c06Obs, error) {
 				if err != nil {
 					return obs, err
 				}
-				cli2, srv2 := gmtls.Client(ce2, cc2), gmtls.Server(se2, sc2)
+				drip := &dripConn{Conn: ce2}
+				cli2, srv2 := gmtls.Client(drip, cc2), gmtls.Server(se2, sc2)
 				if r2 := runHandshake(cli2, srv2, 15*time.Second); r2.cliErr != nil || r2.srvErr != nil || r2.timedOut {
 					e3 = fmt.Errorf("second connection of the same configuration: client %v, server %v", r2.cliErr, r2.srvErr)
-				} else {
+				} else if e3 = dripTransfer(srv2, cli2, drip, []int{1, 1070, 20000, 5}); e3 == nil {
 					e3 = tailThenClose(srv2, cli2, 700+len(sizes))
 				}
 				cli2.Close()
@@ -551,7 +638,7 @@ func runC06(c *c06Case) (c06Obs, error) {
 		obs.DataBytes = n1 + n2
 		obs.DataOK = e1 == nil && e2 == nil && e3 == nil
 		if e3 != nil {
-			obs.DataErr = "s2c, last message before Close: " + e3.Error()
+			obs.DataErr = "s2c, second connection (reads interrupted by expired deadlines, then the last message before Close): " + e3.Error()
 		}
 		if e1 != nil {
 			obs.DataErr = "c2s: " + e1.Error()
